@@ -654,6 +654,7 @@ def draw_driver(rng):
     senc = rng.choice(['utf-8', 'utf-8', 'latin-1'])
     denc = rng.choice(['utf-8', 'utf-8', 'latin-1', 'utf-16'])
     trans, params, dopts, sopts = [], [], [], ['quiet']
+    punct_bank = False
     r = rng.random()
     resolve = False
     if r < 0.2:
@@ -680,6 +681,26 @@ def draw_driver(rng):
         params += ['filteroperator:' + rng.choice(['lt', 'gt', 'eq', 'le',
                                                    'ge']),
                    'filtervalue:%d' % rng.randint(1, 6)]
+        # the transformations run in the order given: a step that changes the
+        # number of tokens before / after the filter
+        if rng.random() < 0.6:
+            trans = rng.choice([['punctuation_delete', 'filter_by_length'],
+                                ['filter_by_length', 'punctuation_delete'],
+                                ['punctuation_delete', 'filter_by_length',
+                                 'root_attach']])
+            punct_bank = True
+    elif r < 0.7:
+        trans = rng.choice([['add_topnode', 'punctuation_root'],
+                            ['root_attach', 'punctuation_verylow'],
+                            ['punctuation_verylow', 'root_attach'],
+                            ['mark_heads_by_rules', 'negra_mark_heads'],
+                            ['negra_mark_heads', 'mark_heads_by_rules'],
+                            ['collapse_unary_chains',
+                             'uncollapse_unary_chains']])
+        if 'mark_heads_by_rules' in trans:
+            params.append('mark_heads_preset:negra')
+            dopts.append('mark_heads_marking')
+        punct_bank = True
     cont = sfmt == 'brackets' or (dfmt == 'brackets' and not resolve
                                   and rng.random() < 0.8)
     if dfmt == 'brackets' and not cont and not resolve and rng.random() < 0.5:
@@ -715,6 +736,13 @@ def draw_driver(rng):
     lim = 'latin-1' if 'latin-1' in (senc, denc) else 'utf-8'
     case['bank'] = make_bank(rng, cont, lim, sfmt in ('export', 'tigerxml'),
                              sfmt == 'export')
+    if punct_bank:
+        for s_ in case['bank']:
+            for t_ in gen.tokens_of(s_['root']):
+                if rng.random() < 0.3:
+                    t_['w'] = rng.choice([',', '.', '"', '-', '?', "''"])
+                    if t_.get('lm') not in (None, '--'):
+                        t_['lm'] = t_['w']
     return case
 
 
